@@ -593,6 +593,8 @@ func genJudge(w *Worker, id string, o *obs, variants []string) {
 		}
 	}
 	switch id {
+	case "C04":
+		c04GenJudge(w, o, variants, bad)
 	case "C05":
 		c05GenJudge(w, o, bad)
 	case "C08":
